@@ -773,6 +773,50 @@ func builderSites(c *engine.Context) []*builderSite {
 							}
 						}
 					}
+					// the query may be a copy of a struct value that was filled step by step
+					// (`q := T{left, right}; q.cmp = …; push(&copyOf(q))`): the fields are what was
+					// last stored into the source before the copy
+					for _, ref := range *al.Referrers() {
+						st, ok := ref.(*ssa.Store)
+						if !ok || st.Addr != ssa.Value(al) {
+							continue
+						}
+						ld, ok := st.Val.(*ssa.UnOp)
+						if !ok {
+							continue
+						}
+						src, ok := ld.X.(*ssa.Alloc)
+						if !ok {
+							continue
+						}
+						if v := reachingFieldStore(src, sh.leftField, ld); v != nil {
+							rs.left = v
+						}
+						if v := reachingFieldStore(src, sh.rightField, ld); v != nil {
+							rs.right = v
+						}
+						if v := reachingFieldStore(src, sh.cmpField, ld); v != nil {
+							rs.cmp = v
+						}
+					}
+					// an allocation that is only the source of such copies is not itself a site
+					copiedOnly := false
+					for _, ref := range *al.Referrers() {
+						if ld, ok := ref.(*ssa.UnOp); ok && ld.X == ssa.Value(al) {
+							copiedOnly = true
+						}
+					}
+					escapes := false
+					for _, ref := range *al.Referrers() {
+						switch ref.(type) {
+						case *ssa.FieldAddr, *ssa.Store, *ssa.UnOp, *ssa.DebugRef:
+						default:
+							escapes = true
+						}
+					}
+					if copiedOnly && !escapes {
+						continue
+					}
 					if rs.left != nil && rs.right != nil && rs.cmp != nil {
 						raws = append(raws, rs)
 					}
@@ -1341,4 +1385,70 @@ func memberIndependentTypes(p *load.Program) map[*types.Named]bool {
 		}
 	}
 	return out
+}
+
+// reachingFieldStore: the value of field f of the local struct src when instruction at runs: the
+// unique store into that field that dominates at and is dominated by every other such store
+// that dominates at; nil when stores that do not dominate at exist (the value depends on the path).
+func reachingFieldStore(src *ssa.Alloc, f int, at ssa.Instruction) ssa.Value {
+	var doms []*ssa.Store
+	for _, ref := range *src.Referrers() {
+		fa, ok := ref.(*ssa.FieldAddr)
+		if !ok || fa.Field != f {
+			continue
+		}
+		for _, r2 := range *fa.Referrers() {
+			st, ok := r2.(*ssa.Store)
+			if !ok || st.Addr != ssa.Value(fa) {
+				continue
+			}
+			if instrDominates(st, at) {
+				doms = append(doms, st)
+			} else if reaches(st, at) {
+				return nil
+			}
+		}
+	}
+	var last *ssa.Store
+	for _, st := range doms {
+		isLast := true
+		for _, o := range doms {
+			if o != st && !instrDominates(o, st) {
+				isLast = false
+			}
+		}
+		if isLast {
+			last = st
+		}
+	}
+	if last == nil {
+		return nil
+	}
+	return last.Val
+}
+
+// reaches: control can flow from instruction a to instruction b.
+func reaches(a, b ssa.Instruction) bool {
+	if a.Block() == b.Block() {
+		if instrBefore(a, b) {
+			return true
+		}
+	}
+	seen := map[*ssa.BasicBlock]bool{}
+	var walk func(x *ssa.BasicBlock) bool
+	walk = func(x *ssa.BasicBlock) bool {
+		for _, s := range x.Succs {
+			if s == b.Block() {
+				return true
+			}
+			if !seen[s] {
+				seen[s] = true
+				if walk(s) {
+					return true
+				}
+			}
+		}
+		return false
+	}
+	return walk(a.Block())
 }
